@@ -190,13 +190,13 @@ def run(ctx):
         det = []
         lroots = P.root(lt)
         for r, p in lroots:
-            if not (r[0] == 'call' and callee_is(P.call_term(r), 'Vec::len')):
+            if not P.is_call(r, 'Vec::len', 'slice::len'):      # possibly inside a private length helper that is handed the vector (as a slice)
                 ok = False
                 det.append('%s from %s' % (len_field, P.describe(r)))
                 continue
-            a = P.root(P.call_args(r)[0])
+            a = P.root(P.args_of(r)[0])
             b = P.root(vt)
-            if {x for x, _ in a} != {x for x, _ in b}:
+            if {P.unbound(x) for x, _ in a} != {P.unbound(x) for x, _ in b}:
                 ok = False
                 det.append('length of a different vector than the one stored')
         R.ob('C20.ch', ('ConsistentHash ctor', F.enclosing_item(f).npath, 'stubs_len = stubs.len()'), ok and bool(lroots),
